@@ -53,6 +53,12 @@ type Strategy struct {
 	// "evals-first" = evaluations, then commitment (same block); "evals-block-first" = the
 	// evaluations one block before the commitment.  Independent of the contents.
 	Order string `json:"order,omitempty"`
+	// TVote: "" = the vote is sent after the eon is finalised; "early" = in the block after the eon
+	// started (t Byzantine "failed" votes cast before the honest ones make shuttermint retry).
+	TVote string `json:"t_vote,omitempty"`
+	// Later, when set, is what the party does in the retried eons of keyper set 1 (every eon after
+	// the first); without it the party does the same in every eon.
+	Later *Strategy `json:"later,omitempty"`
 }
 
 type Plan struct {
@@ -68,13 +74,14 @@ type Plan struct {
 	SplitAll bool `json:"split_all,omitempty"`
 	// Restart: this honest party processes one block per loop iteration and is restarted (its
 	// ShuttermintState, message sender, client and connections are thrown away, fresh ones built)
-	// right after the transaction of block start+After of the first eon of keyper set 1.
+	// right after the transaction of block start+After of the Eon-th eon of keyper set 1.
 	Restart *RestartSpec `json:"restart,omitempty"`
 }
 
 type RestartSpec struct {
 	Party int   `json:"party"`
 	After int64 `json:"after"`
+	Eon   int   `json:"eon,omitempty"` // which eon of keyper set 1 (0: the first, 1: the first retry ...)
 }
 
 func (p Plan) byz(i int) *Strategy {
@@ -190,14 +197,19 @@ func execute(plan Plan, servers *dkgrig.Servers) (*runLog, error) {
 			iterate(i, round)
 			after, _ := rig.SyncPos(i)
 			if !restarted {
+				ord := 0
 				for _, e := range rig.Eons() {
-					if e.CfgIdx == 1 && after >= e.Start+plan.Restart.After {
+					if e.CfgIdx != 1 {
+						continue
+					}
+					if ord == plan.Restart.Eon && after >= e.Start+plan.Restart.After {
 						restarted = true
 						if err := rig.Restart(i); err != nil {
 							lg.errs = append(lg.errs, fmt.Sprintf("party %d: restart: %v", i, err))
 						}
 						break
 					}
+					ord++
 				}
 			}
 			if after == before || after+2 >= rig.Chain.Height() {
@@ -216,9 +228,22 @@ func execute(plan Plan, servers *dkgrig.Servers) (*runLog, error) {
 		if plan.memberIdx(s.Party) < 0 {
 			return
 		}
+		firstEon := uint64(0)
+		for _, e := range rig.Eons() {
+			if e.CfgIdx == 1 && (firstEon == 0 || e.Eon < firstEon) {
+				firstEon = e.Eon
+			}
+		}
+		base := s
 		for _, e := range rig.Eons() {
 			if e.CfgIdx != 1 {
 				continue
+			}
+			s := base
+			if base.Later != nil && e.Eon != firstEon {
+				ls := *base.Later
+				ls.Party = base.Party
+				s = &ls
 			}
 			st := bz[s.Party][e.Eon]
 			if st == nil {
@@ -340,7 +365,11 @@ func execute(plan Plan, servers *dkgrig.Servers) (*runLog, error) {
 					}
 				}
 			}
-			if !st.voted && open == S+3*L+3 && s.Vote != "none" {
+			voteAt := S + 3*L + 3
+			if s.TVote == "early" {
+				voteAt = S + 1
+			}
+			if !st.voted && open == voteAt && s.Vote != "none" {
 				st.voted = true
 				rig.SubmitAs(s.Party, shmsg.NewDKGResult(e.Eon, s.Vote == "true"))
 			}
@@ -354,6 +383,17 @@ func execute(plan Plan, servers *dkgrig.Servers) (*runLog, error) {
 		if round == ksRound {
 			if err := rig.AddKeyperSet(1, 50, plan.Members, plan.P.T); err != nil {
 				return nil, err
+			}
+		}
+		if round == ksRound+2 {
+			// the Byzantine parties vote for keyper set 1 as well (they are keypers of the genesis
+			// config): with fewer than t honest voters the set would never be accepted
+			var ms []common.Address
+			for _, m := range plan.Members {
+				ms = append(ms, addr(m))
+			}
+			for k := range plan.Byz {
+				rig.SubmitAs(plan.Byz[k].Party, shmsg.NewBatchConfig(50, ms, uint64(plan.P.T), 1))
 			}
 		}
 		open := rig.Chain.OpenHeight()
@@ -942,7 +982,7 @@ func randomPlan(r *vh.RNG) Plan {
 		}
 		if len(hon) > 0 {
 			p.SplitAll = r.Chance(1, 2)
-			p.Restart = &RestartSpec{Party: hon[r.Intn(len(hon))], After: int64(r.Intn(int(3*L) + 2))}
+			p.Restart = &RestartSpec{Party: hon[r.Intn(len(hon))], After: int64(r.Intn(int(3*L) + 2)), Eon: r.Intn(p.MaxEons)}
 		}
 	}
 	return p
@@ -1018,6 +1058,37 @@ func forcedPlans() []Plan {
 	p.Byz = []Strategy{s1, s2}
 	p.MaxEons = 2
 	out = append(out, p)
+	// a retried eon with a Byzantine dealer in it, and an honest party restarted after each block
+	// of the retried eon.  (a) n=4, t=3: parties 2 and 3 withhold in the first eon, it fails for
+	// everybody and is retried; (b) n=4, t=2: parties 2 and 3 vote "failed" before the honest
+	// keypers have voted, shuttermint retries at once.  In the retried eon party 2 is correct,
+	// party 3 deals a wrong evaluation to party 0 and never apologises.
+	for variant := 0; variant < 2; variant++ {
+		for party := 0; party < 2; party++ {
+			for k := int64(1); k <= 3*6+4; k++ {
+				t := 3
+				if variant == 1 {
+					t = 2
+				}
+				q := honestPlan(4, t, 6, uint64(500+100*variant+50*party)+uint64(k))
+				b2, b3 := defaultStrategy(4, 2), defaultStrategy(4, 3)
+				l2, l3 := defaultStrategy(4, 2), defaultStrategy(4, 3)
+				l3.Evals[0] = "wrong"
+				l3.Apology = "none"
+				b2.Vote, b3.Vote = "false", "false"
+				if variant == 0 {
+					b2.Commit, b3.Commit = "none", "none"
+				} else {
+					b2.TVote, b3.TVote = "early", "early"
+				}
+				b2.Later, b3.Later = &l2, &l3
+				q.Byz = []Strategy{b2, b3}
+				q.MaxEons = 2
+				q.Restart = &RestartSpec{Party: party, After: k, Eon: 1}
+				out = append(out, q)
+			}
+		}
+	}
 	// permuted member list, a party outside the set
 	p = honestPlan(4, 2, 6, 302)
 	p.Members = []int{2, 0, 3}
@@ -1042,7 +1113,7 @@ func main() {
 	run := vh.Start("Verif.Corr.C07", 12)
 	run.SetPreamble("From Verif Require Import Model.DKGPure Model.DKGDriver.\nOpen Scope N_scope.")
 	defer run.Finish()
-	run.Rule = "complete DKG runs on n real keyper stacks (smobserver, fx message sender, puredkg, ECIES, one pgfake database each) over tmfake around the real shuttermint app; Byzantine parties from the alphabet eval {correct, wrong, none} per victim x commitment {correct, none, wrong degree, duplicate} x order of the two dealing messages {commitment first, evaluations first, evaluations a block earlier} x accusation subsets x apology {correct, wrong, none, unasked} x timing {in phase, late, early} x vote; slow honest parties; permuted / partial keyper sets; forced: all-honest n=3..5, each single deviation for n=3,t=2, a failing DKG with restart, all-honest runs with every transaction alone in its block and one keyper restarted after the k-th block of the eon (k = 1..16, two parties); thorough: the exhaustive one-Byzantine tables for n=3,t=2 (both message orders), n=4,t=2 and n=4,t=3; non-trivial = a Byzantine or slow party took part and at least one honest keyper finished the DKG; distinct by the JSON rendering of the plan"
+	run.Rule = "complete DKG runs on n real keyper stacks (smobserver, fx message sender, puredkg, ECIES, one pgfake database each) over tmfake around the real shuttermint app; Byzantine parties from the alphabet eval {correct, wrong, none} per victim x commitment {correct, none, wrong degree, duplicate} x order of the two dealing messages {commitment first, evaluations first, evaluations a block earlier} x accusation subsets x apology {correct, wrong, none, unasked} x timing {in phase, late, early} x vote; slow honest parties; permuted / partial keyper sets; forced: all-honest n=3..5, each single deviation for n=3,t=2, a failing DKG with restart, all-honest runs with every transaction alone in its block and one keyper restarted after the k-th block of the eon (k = 1..16, two parties), retried eons (a genuinely failed first eon; t Byzantine failure votes cast early) with a Byzantine dealer in the retry and an honest keyper restarted after each block of the retried eon; thorough: the exhaustive one-Byzantine tables for n=3,t=2 (both message orders), n=4,t=2 and n=4,t=3; non-trivial = a Byzantine or slow party took part and at least one honest keyper finished the DKG; distinct by the JSON rendering of the plan"
 
 	var plans []Plan
 	if run.Replay != "" {
@@ -1128,6 +1199,16 @@ func main() {
 	for is := range issues {
 		run.Tie(is)
 	}
+	// the property itself (agreement) is reported before its symptoms
+	for _, o := range results {
+		if o.err == nil {
+			for _, v := range o.or.viol {
+				if v.Key == "C07:disagreement" {
+					run.Violate(v)
+				}
+			}
+		}
+	}
 	for i, o := range results {
 		id := uint64(i + 1)
 		run.NextID()
@@ -1136,7 +1217,9 @@ func main() {
 			continue
 		}
 		for _, v := range o.or.viol {
-			run.Violate(v)
+			if v.Key != "C07:disagreement" {
+				run.Violate(v)
+			}
 		}
 		js, _ := json.Marshal(o.plan)
 		nb, ns := len(o.plan.Byz), len(o.plan.Slow)
